@@ -115,6 +115,12 @@ func scShutdown(r *Run) {
 				var b []byte
 				if e.rel {
 					b = make([]byte, 1+r.Intn(key, 5000))
+					if r.Intn(key, 8) == 0 {
+						// far more than a window of frames: the tube's sender goroutine is still feeding frames
+						// when closes, stops and timers arrive
+						b = make([]byte, 200000+r.Intn(key, 1300000))
+						r.CountFault("write-larger-than-window", 1)
+					}
 					streamFill(b, e.wsalt, e.woff)
 				} else {
 					b = unrelMsg(e.wsalt, uint64(e.woff), r.Intn(key, 500))
